@@ -24,6 +24,15 @@ pub type BatchItem = Item;
 //@contract-file fn/journal_persist.c
 //@end
 
+//@extract src/journal/mod.rs :: Drop for Journal :: drop world inherent props=C09
+//@contract
+    requires !old(w).journal.locked, inv(*old(w)),
+    ensures
+        // C09: everything written before the database is dropped is synced to the device (unless the sync itself fails)
+        final(w).journal.synced_len == old(w).journal.len || final(w).journal.failed || final(w).journal == old(w).journal, // [C09:dropping-the-journal-syncs-everything-written]
+        final(w).journal.recs == old(w).journal.recs && final(w).journal.len == old(w).journal.len && final(w).trees == old(w).trees, // [C09:drop-changes-no-content]
+//@end
+
 //@extract src/snapshot_tracker.rs :: SnapshotTracker :: publish world spec_only
 //@contract-file fn/tracker_publish.c
 //@end
